@@ -20,7 +20,7 @@ import ast
 from ..effects import Effects
 from ..loader import dotted, norm
 from ..paths import Walker, truth
-from ..structure import catches, enclosing_tries
+from ..structure import catches, enclosing_tries, is_generator
 
 REQUIRED = ["EOFError", "UnpicklingError", "AttributeError", "ImportError", "IndexError", "KeyError",
             "ValueError", "TypeError", "OSError", "MemoryError", "UnicodeDecodeError"]
@@ -433,6 +433,27 @@ def loader_guard_obligations(ctx, rep, eff, rule="R11a"):
         if in_loop:
             problems.append("records are read until end-of-file: a cache file cut off at a record boundary (or at byte 0) is accepted as a complete, "
                             "shorter listing instead of being regenerated")
+        # a generator runs none of its body when it is called: a try around the *call* guards nothing, the load happens at the
+        # first next() - wherever the entries are iterated (the protocol's writedir).  Materialising inside the guard is fine.
+        if is_generator(f.node):
+            lazy = True
+            if inline_fn is f:
+                from ..structure import parents as _parents
+
+                pm2 = _parents(root.node)
+                lazy = False
+                for call2, t2 in eff.calls_of(root, root.cls if root.cls is not None else None):
+                    if t2.kind == "repo" and f in t2.funcs:
+                        par2 = pm2.get(call2)
+                        eager = (isinstance(par2, ast.Call) and dotted(par2.func) in ("list", "tuple", "sorted", "dict", "set")
+                                 and {id(t) for t in enclosing_tries(root.node, par2)} >= {id(t) for t in enclosing_tries(root.node, call2)}) \
+                            or isinstance(par2, ast.Starred) or (isinstance(par2, ast.comprehension) and par2.iter is call2 and not
+                                                                 isinstance(pm2.get(par2), ast.GeneratorExp))
+                        if not eager:
+                            lazy = True
+            if lazy:
+                problems.append(f"{f.qualname} is a generator: calling it runs none of its body, so the guard around the call catches nothing - "
+                                "the load (and its EOFError on a cut-off file) happens where the entries are first iterated, outside the guard")
         if missing:
             problems.append(f"a truncated or zero-filled cache file raises {missing[0]} (also {', '.join(missing[1:4])}) which nothing here catches: "
                             "the request fails instead of regenerating the listing")
